@@ -77,6 +77,40 @@ Section Log.
     rewrite <- (app_nil_r (frames ps)) at 2. rewrite (decode_all_frames cont k ps ms G), decode_all_nil. reflexivity.
   Qed.
 
+  (** enough fuel is enough: every Decode call that is not end-of-log consumes input *)
+  Lemma decode_all_fuel cont k : forall f1 f2 bs, length bs < f1 -> length bs < f2 ->
+    decode_all cont f1 k bs = decode_all cont f2 k bs.
+  Proof.
+    induction f1 as [|f1 IH]; intros f2 bs L1 L2; [lia|]. destruct f2 as [|f2]; [lia|].
+    cbn [Model.decode_all]. pose proof (decode_consumes crc crc_range msg deser k bs) as C.
+    destruct (decode k bs) as [m rest| |c rest]; auto.
+    - f_equal. apply IH; lia.
+    - f_equal. destruct cont; auto. apply IH; lia.
+  Qed.
+
+  (** whatever follows the written records — garbage, a damaged record, nothing — the written
+      messages come back first, in order; then the reader goes on with what follows *)
+  Lemma read_log_frames_app cont k ps ms tail :
+    Forall2 good ps ms -> read_log cont k (frames ps ++ tail) = map ObMsg ms ++ read_log cont k tail.
+  Proof.
+    intro G. unfold Model.read_log. pose proof (frames_length_ge crc ps) as L.
+    replace (S (length (frames ps ++ tail))) with (length ps + (S (length (frames ps ++ tail)) - length ps))
+      by (rewrite app_length; lia).
+    rewrite (decode_all_frames cont k ps ms G). f_equal. apply decode_all_fuel; rewrite ?app_length; lia.
+  Qed.
+
+  (** a record that Decode reports as corrupt and steps over (its rest is [tail]): in stop mode the log
+      ends there, in ignore mode reading goes on behind it *)
+  Lemma read_log_corrupt cont k bad c tail :
+    decode k (bad ++ tail) = OCorrupt c tail ->
+    read_log cont k (bad ++ tail) = ObCorrupt c :: (if cont then read_log cont k tail else []).
+  Proof.
+    intro D. unfold Model.read_log. remember (S (length tail)) as ft eqn:Hft.
+    cbn [Model.decode_all]. rewrite D. f_equal. destruct cont; auto.
+    pose proof (decode_consumes crc crc_range msg deser k (bad ++ tail)) as C. rewrite D in C.
+    apply decode_all_fuel; lia.
+  Qed.
+
   (** ** truncation *)
   Lemma firstn8_frame p : firstn 8 (frame p) = be32 (crc p) ++ be32 (lenN p).
   Proof. reflexivity. Qed.
@@ -237,6 +271,43 @@ Section Log.
     rewrite (repair_loop_frames ps ms C _ tail [] T). reflexivity.
   Qed.
 
+  (** repairing a TRUNCATED log: the result is the frames of a prefix of the written records (the
+      record cut by the truncation is dropped — or, os.File zero-fill, completed to exactly what it
+      was); the only escape is an explicit CRC collision on a payload that unmarshals *)
+  Lemma repair_loop_truncated : forall ps ms, Forall2 canon ps ms -> forall n fuel acc,
+    n < length (frames ps) -> n < fuel ->
+    (exists j, repair_loop fuel (firstn n (frames ps)) acc = (acc ++ frames (firstn j ps), true)) \/
+    (exists p, In p ps /\ collision p).
+  Proof.
+    induction 1 as [|p m ps ms [G S] _ IH]; intros n fuel acc Hn Hf; [cbn in Hn; lia|].
+    rewrite frames_cons in *. rewrite app_length, frame_length in Hn.
+    destruct fuel as [|f]; [lia|].
+    destruct (le_lt_dec (length (frame p)) n) as [Ge|Lt].
+    - rewrite firstn_app_ge by exact Ge. cbn [Model.repair_loop]. rewrite (decode_frame' RFile p m _ G).
+      rewrite S, (encode_good p m G). rewrite frame_length in *.
+      destruct (IH (n - (8 + length p)) f (acc ++ frame p)) as [[j E]|[q [I C]]]; try lia.
+      + left. exists (Datatypes.S j). cbn [firstn]. rewrite E, frames_cons, <- app_assoc. reflexivity.
+      + right. exists q. split; auto. right. exact I.
+    - rewrite firstn_app_le by lia. cbn [Model.repair_loop].
+      destruct (decode_cut RFile p m n G Lt) as [E|[[c [r E]]|[[_ [Pos E]]|[_ C]]]].
+      + left. exists 0. rewrite E. cbn [firstn]. change (frames []) with (@nil N). rewrite app_nil_r. reflexivity.
+      + left. exists 0. rewrite E. cbn [firstn]. change (frames []) with (@nil N). rewrite app_nil_r. reflexivity.
+      + left. exists 1. rewrite E, S, (encode_good p m G). destruct f as [|f]; [lia|].
+        cbn [Model.repair_loop]. rewrite (decode_nil crc crc_range). cbn [firstn]. rewrite frames_cons.
+        change (frames []) with (@nil N). rewrite app_nil_r. reflexivity.
+      + right. exists p. split; auto. left. reflexivity.
+  Qed.
+
+  Lemma repair_truncated ps ms n :
+    Forall2 canon ps ms -> n < length (frames ps) ->
+    (exists j, repair (firstn n (frames ps)) = (frames (firstn j ps), true)) \/
+    (exists p, In p ps /\ collision p).
+  Proof.
+    intros C Hn. unfold Model.repair. rewrite firstn_length_le by lia.
+    destruct (repair_loop_truncated ps ms C n (Datatypes.S n) [] Hn) as [[j E]|R]; [lia| |right; exact R].
+    left. exists j. exact E.
+  Qed.
+
 End Log.
 
 (** ** single-byte damage, with the real CRC-32C *)
@@ -305,5 +376,22 @@ Section Flip.
         rewrite Q in E. rewrite E.
         assert (N : nth_error (set_nth i b' (be32 (crc32c p))) i = Some b') by (apply nth_error_set_nth_eq; rewrite be32_length; lia).
         apply nth_error_nth. exact N.
+  Qed.
+  (** the whole log with ONE record damaged in its CRC field or payload: every record before it reads
+      back, the damaged one is reported as a checksum error — and nothing else: in stop mode
+      (catchupReplay, repairWalFile) the log ends there, in ignore mode (SearchForEndHeight) every
+      record behind it reads back too, then end-of-log.  Never a different message. *)
+  Lemma bitflip_log cont k pre p post pre_ms post_ms i b' :
+    Forall2 (good msg deser) pre pre_ms -> Forall2 (good msg deser) post post_ms ->
+    wf_bytes p -> p <> [] -> (lenN p <= max_msg_size_bytes)%N ->
+    i < length (frame p) -> ~ (4 <= i < 8) -> (b' < 256)%N -> nth i (frame p) 0%N <> b' ->
+    read_log crc32c msg deser cont k (frames crc32c pre ++ set_nth i b' (frame p) ++ frames crc32c post) =
+      map ObMsg pre_ms ++ ObCorrupt CCrc :: (if cont then map ObMsg post_ms ++ [ObEof] else []).
+  Proof.
+    intros Gpre Gpost W NE L Hi Hout Hb Hne.
+    rewrite (read_log_frames_app crc32c crc32c_lt msg (fun _ => []) deser cont k pre pre_ms _ Gpre). f_equal.
+    rewrite (read_log_corrupt crc32c crc32c_lt msg (fun _ => []) deser cont k _ CCrc (frames crc32c post))
+      by (apply bitflip_detected; auto).
+    f_equal. destruct cont; auto. apply (roundtrip crc32c crc32c_lt msg deser true k post post_ms Gpost).
   Qed.
 End Flip.
